@@ -4,6 +4,7 @@ The script generator is a finite composition of string constants selected by
 flags, so it is enumerated statically and completely (D-TEMPLATE).
 """
 import ast
+import itertools
 import os
 import re
 import string
@@ -350,6 +351,7 @@ def run(ctx):
             else:
                 r6b.ok("bash -n ok: %s" % name)
     cli_rule(ctx, "C16.R7")
+    option_defaults_rule(ctx, "C16.R10")
     c08.listing_rule(ctx, "C16.R8")
     c04.grow_order_rule(ctx, "C16.R9")
     sl = [f, prog.need_func(CROP + ".grow_cluster"), prog.need_func("xyzpy.gen.xyzpy_grow_cli.main"), prog.need_func(CROP + ".Crop.missing_results"), prog.need_func(CROP + ".Crop.grow_missing"), prog.need_func(CROP + ".Crop.grow")]
@@ -528,6 +530,48 @@ def check_script(ctx, f, it, name, text, rep, ids_len, r3, r4, r5, r6, num_batch
                         okl = False
     if okl:
         r5.ok("%s: imports, Crop(...), grow(...) / crop.grow(...) bind to the current signatures" % name)
+
+
+def option_defaults_rule(ctx, rid):
+    """C16.R10: for every combination of omitted / given resource options
+    (num_procs, num_threads, num_workers) no arithmetic is applied to an
+    option that is definitely None on that path -- otherwise no script is
+    generated at all for that legal option combination."""
+    from ..flow import Flow, is_none
+    from ..cfg import node_exprs
+    rr = ctx.rule(rid, "resource options: no arithmetic on an omitted (None) option for any combination of num_procs / num_threads / num_workers given or omitted", floor=8)
+    f = ctx.prog.need_func(CROP + ".gen_cluster_script")
+    g = build_cfg(f.node)
+    ctx.touch(f, g)
+    seen = set()
+    for sched in ("sge", "pbs", "slurm"):
+        for np_, nt, nw in itertools.product((NONE, NOTNONE), repeat=3):
+            init = {"scheduler": const(sched), "mode": const("array"), "batch_ids": NONE, "num_procs": np_, "num_threads": nt, "num_workers": nw,
+                    "hours": NONE, "minutes": NONE, "seconds": NONE, "time": NONE, "conda_env": FALSE, "output_directory": NONE, "kwargs": FALSY, "mem": NONE, "mem_per_cpu": NONE,
+                    "gigabytes": NONE, "num_nodes": NONE, "mpi": FALSE}
+            fl = Flow(g, init).run()
+            tag = "num_procs %s, num_threads %s, num_workers %s" % tuple("omitted" if v == NONE else "given" for v in (np_, nt, nw))
+            bad = None
+            for n in g.nodes:
+                if n.id not in fl.visited or n.id not in fl.IN:
+                    continue
+                env = fl.IN[n.id]
+                for e in node_exprs(n):
+                    for b in ast.walk(e):
+                        if isinstance(b, ast.BinOp) and isinstance(b.op, (ast.Add, ast.Sub, ast.Mult, ast.Div, ast.FloorDiv, ast.Mod, ast.Pow)):
+                            for side in (b.left, b.right):
+                                if isinstance(side, (ast.Name, ast.Attribute)) and is_none(fl.eval(side, env.copy())) is True:
+                                    if bad is None or (b.lineno, b.col_offset) < (bad[0].lineno, bad[0].col_offset):
+                                        bad = (b, side)      # the first one in source order ends the path
+            if bad is None:
+                rr.ok("%s / %s: no arithmetic on an omitted option" % (sched, tag))
+            else:
+                key = (norm(bad[0]), tag)
+                if key not in seen:
+                    seen.add(key)
+                    rr.bad(ctx.finding(rid, f, bad[0], "with %s the generator evaluates `%s` where `%s` is None: gen_cluster_script raises TypeError and no script is produced for this option combination (every scheduler)" % (tag, norm(bad[0]), norm(bad[1])),
+                                       construct="none-arithmetic %s [%s]" % (norm(bad[0]), tag), path=tag), tag)
+    return rr
 
 
 def cli_rule(ctx, rid):
